@@ -192,8 +192,9 @@ func (ga *GroupAggregator) Add(data any) error {
 		var fieldVal any
 		var found bool
 
-		// Check if it's a nested field
-		if fieldpath.IsNestedField(field) {
+		// Check if it's a nested field. A function-expression key (round(v*0.1)) is a
+		// column of its own that was computed into the row: the dot in it is no path.
+		if fieldpath.IsNestedField(field) && !strings.Contains(field, "(") {
 			fieldVal, found = fieldpath.GetNestedField(data, field)
 		} else {
 			// Original field access logic
